@@ -195,6 +195,7 @@ class ObservingController(controller_nonMPI):
                 for rec in cur.sent.values():
                     self._check_unconsumed(cur, rec, 'end of block')
             cur.sent = {}
+            cur.model_prev_done = {}  # the harness's own record: which steps know (in THIS block) that their predecessor finished
             cur.block += 1
             cur.macro = 0
             cur.snap = {}
@@ -223,8 +224,19 @@ class ObservingController(controller_nonMPI):
             key = (S.status.slot, level)
             self._check_unconsumed(cur, cur.sent.get(key), 'replaced by the next transfer on this level')
             succ = [T for T in self.MS if T.status.slot == S.status.slot + 1 and T.status.slot in cur.active]
-            listening = bool(succ) and not succ[0].status.prev_done and not succ[0].status.done
+            listening = bool(succ) and not getattr(cur, 'model_prev_done', {}).get(succ[0].status.slot, False) and not succ[0].status.done
             cur.sent[key] = {'slot': S.status.slot, 'level': level, 'tag': S.levels[level].tag, 'stage': S.status.stage, 'consumed': 0, 'listening': listening}
+
+    def it_check(self, local_MS_running):
+        super().it_check(local_MS_running)
+        cur = CUR
+        if cur is not None:
+            pd = getattr(cur, 'model_prev_done', None)
+            if pd is None:
+                pd = cur.model_prev_done = {}
+            for S in local_MS_running:
+                if not S.status.first:
+                    pd[S.status.slot] = bool(S.prev.status.done)
 
     def recv_full(self, S, level=None, add_to_stats=False):
         cur = CUR
